@@ -53,12 +53,28 @@ vars == <<res, helpers, entries, syn, order>>
 AllResKinds == <<"uniform", "storage_ro", "storage_rw", "atomic", "tex2d", "texdepth", "texstorage", "sampler", "sampler_cmp",
                  "workgroup", "private">>
 AllShapes == <<"value_params", "ptr_function", "ptr_private", "ptr_compound_assign", "early_return", "switch_break_in_loop", "switch_break_noloop",
-               "switch_continue_in_loop", "shadow_let", "shadow_var", "shadow_param", "shadow_global", "shadow_builtin_fn",
+               "switch_continue_in_loop", "switch_nested_break_after", "switch_nested_break_direct", "switch_in_continuing",
+               "switch_in_continuing_nested_break", "shadow_let", "shadow_var", "shadow_param", "shadow_global", "shadow_builtin_fn",
                "user_fn_named_builtin", "fwd_fn", "fwd_const", "fwd_struct", "fwd_alias", "alias_chain",
-               "const_composite_index_member", "const_matrix_elem", "uses_res">>
+               "const_composite_index_member", "const_matrix_elem",
+               "shadow_fwd_let_const", "shadow_fwd_const_const", "shadow_fwd_const_abstract", "shadow_fwd_var_private", "shadow_fwd_let_override",
+               "shadow_fwd_block", "shadow_fwd_loop", "shadow_fwd_for_init", "shadow_block_leak", "uses_res">>
+\* shadow_fwd_*: a local let / var / const spelled like a module-scope const / var<private> / override and initialised FROM
+\* that module-scope declaration (the scope of a local starts after its declaration statement, so the initialiser denotes
+\* the module-scope one), at function top level, in a nested block, in a loop body, in a for initialiser; the module-scope
+\* declaration stands before the function (order "decl_first") or after it ("use_first": shadowing and forward reference
+\* together).  shadow_block_leak: a block-scoped local of that spelling, and the module-scope one used after the block.
+\* module-scope declarations a helper shape brings with it (features of Naga.tla)
+ShapeFeats(s) == CASE s \in {"ptr_private", "shadow_fwd_var_private", "shadow_fwd_loop"} -> {"private"}
+                   [] s = "shadow_fwd_let_override" -> {"override"}
+                   [] OTHER -> {}
 AllOps == <<"read", "write", "atomic", "array_length", "sample", "sample_level", "sample_cmp", "sample_cmp_level", "tex_load",
             "tex_dims", "tex_store", "barrier", "derivative", "derivative_ctl", "discard", "call">>
-AllCtl == <<"top", "if_uniform", "if_nonuniform", "loop", "switch">>
+AllCtl == <<"top", "if_uniform", "if_nonuniform", "loop", "switch", "switch_nested">>
+\* "switch_nested": the operation follows, in an outer switch clause, a complete nested switch and a conditional break of the
+\* outer switch (non-uniform selector).  switch_nested_* / switch_in_continuing* helper shapes: the same patterns in helper
+\* functions (the only function bodies ir.Validate walks), incl. a switch inside a loop's continuing block - a `break` there
+\* leaves the switch, not the continuing block, and is valid.
 IdxIn(seq, x) == CHOOSE i \in 1 .. Len(seq) : seq[i] = x
 
 Bound(k) == k \notin {"workgroup", "private"}
@@ -298,9 +314,9 @@ OpFeats(o) == CASE o.op \in {"sample", "sample_cmp"} -> {"sample_implicit"}
                 [] o.op = "derivative" -> {"derivative"}
                 [] o.op = "derivative_ctl" -> {"derivative", "derivative_control"}
                 [] o.op = "discard" -> {"discard"}
-                [] o.op = "call" -> (IF helpers[o.h].shape = "ptr_private" THEN {"private"} ELSE {})
+                [] o.op = "call" -> ShapeFeats(helpers[o.h].shape)
                 [] OTHER -> {}
-CtlFeats(o) == IF o.cf \in {"if_nonuniform", "switch"} THEN {"private"} ELSE {}   \* the non-uniform condition reads a private variable
+CtlFeats(o) == IF o.cf \in {"if_nonuniform", "switch", "switch_nested"} THEN {"private"} ELSE {}   \* the non-uniform condition reads a private variable
 ItemFeats(it) == (IF it.b \in {"sample_index", "sample_mask"} \/ it.interp \in {"perspective_sample", "linear_sample"} THEN {"sample_rate"} ELSE {})
                  \cup (IF it.inv THEN {"invariant"} ELSE {})
 EntryFeats(e) == UNION ({ResFeats(x) : x \in StaticUse(e)}
@@ -308,7 +324,7 @@ EntryFeats(e) == UNION ({ResFeats(x) : x \in StaticUse(e)}
                         \cup {ItemFeats(e.ins[j]) : j \in 1 .. Len(e.ins)} \cup {ItemFeats(e.outs[j]) : j \in 1 .. Len(e.outs)})
 \* whole-module translation sees every declaration
 ModuleFeats == UNION ({ResFeats(i) : i \in 1 .. Len(res)} \cup {EntryFeats(entries[i]) : i \in 1 .. Len(entries)}
-                      \cup {IF helpers[i].shape = "ptr_private" THEN {"private"} ELSE {} : i \in 1 .. Len(helpers)})
+                      \cup {ShapeFeats(helpers[i].shape) : i \in 1 .. Len(helpers)})
 \* does some pair of entry points reuse a (group, binding) for different resources / share a resource?
 Reuses == \E i, j \in 1 .. Len(entries) : i # j /\ \E x \in StaticUse(entries[i]), y \in StaticUse(entries[j]) :
              x # y /\ Bound(res[x].k) /\ Bound(res[y].k) /\ <<res[x].g, res[x].b>> = <<res[y].g, res[y].b>>
